@@ -145,8 +145,8 @@ def judge_chain(ops_in: list[Any], result: Any, scalars: list[float], tags: list
 def case(rng: Any, ctx: Ctx, index: int) -> None:
     gen.begin_case(rng)
     names = sorted(patterns.PATTERNS)
-    rr = ([('blocks', f) for f in range(4)] + [('nearmiss', f) for f in range(patterns.N_NEARMISS)]
-          + [(n, None) for n in names if n not in ('blocks', 'nearmiss')])
+    rr = ([('blocks', f) for f in range(4)] + [(n, None) for n in names if n not in ('blocks', 'nearmiss')]
+          + [('nearmiss', f) for f in range(patterns.N_NEARMISS)])      # documented patterns first: every rule fires early in every shard
     k = 1 + int(rng.integers(3) == 0) + int(rng.integers(6) == 0)
     bare = bool(rng.integers(4) == 0)        # the pattern alone: chains whose operands ALL cancel (the rule must synthesise the identity)
     if bare:
